@@ -30,6 +30,18 @@ type c05Case struct {
 	Writes []int   `json:"writes"`
 	Edit   c05Edit `json:"edit"`
 	RecvCW bool    `json:"recvcw"` // the receiver shuts its write side down (CloseWrite) before it reads
+	// Many > 0: Writes is Many writes of 1..4 bytes (more records than a 16-bit counter holds)
+	Many int `json:"many,omitempty"`
+}
+
+func (c c05Case) expand() c05Case {
+	if c.Many > 0 && len(c.Writes) == 0 {
+		c.Writes = make([]int, c.Many)
+		for i := range c.Writes {
+			c.Writes[i] = 1 + i%4
+		}
+	}
+	return c
 }
 
 type c05Out struct {
@@ -46,6 +58,7 @@ func c05Exec(c c05Case) (out c05Out, sig, msg string) {
 	ccfg, scfg := vfBaseConfigs(c.Suite, false)
 	cc := vfNewCapCache(4)
 	ccfg.SessionCache, scfg.SessionCache = cc, vfNewCapCache(4)
+	c = c.expand()
 	var hist [][]byte
 	var chunks [][]byte
 	for i, n := range c.Writes {
@@ -218,6 +231,7 @@ func c05Exec(c c05Case) (out c05Out, sig, msg string) {
 
 // c05Check runs the case and applies the oracle.
 func c05Check(c c05Case) (sig, msg string, classes []string, applied bool) {
+	c = c.expand()
 	out, sig, msg := c05Exec(c)
 	if sig != "" {
 		return sig, msg, nil, false
@@ -326,7 +340,7 @@ func c05Structural(nrec int) []c05Edit {
 }
 
 func TestVF_C05(t *testing.T) {
-	rec := vfRec("C05", "C05-records", "one edit on the protected application records of one direction after an honest handshake: flip (every byte of every record x masks 01,80,FF), drop, duplicate, swap, replay of an earlier record in place of a later one (also after 250+ records, at distances 1, 2, 254..257), truncate at every boundary and inside records, inject plaintext/garbage records of 6 content types x 4 bodies; x cipher modes x directions x write profiles; oracle: delivered bytes = whole records before the damage, then a sticky error (io.EOF only for a cut at a record boundary, ErrUnexpectedEOF inside a record), alerts decoded with the reference must be bad_record_mac for every fragment damage; non-trivial = edit applied to a protected record; distinct = (suite, direction, profile, edit)")
+	rec := vfRec("C05", "C05-records", "one edit on the protected application records of one direction after an honest handshake: flip (every byte of every record x masks 01,80,FF), drop, duplicate, swap, replay of an earlier record in place of a later one (also after 250+ records at distances 1, 2, 254..257, and after 65540 records at distance 2^16), truncate at every boundary and inside records, inject plaintext/garbage records of 6 content types x 4 bodies; x cipher modes x directions x write profiles; oracle: delivered bytes = whole records before the damage, then a sticky error (io.EOF only for a cut at a record boundary, ErrUnexpectedEOF inside a record), alerts decoded with the reference must be bad_record_mac for every fragment damage; non-trivial = edit applied to a protected record; distinct = (suite, direction, profile, edit)")
 	suites := []uint16{ECC_SM4_GCM_SM3, ECC_SM4_CBC_SM3}
 	profiles := [][]int{{1, 40, 17, 300}}
 	if vfThorough() {
@@ -440,6 +454,21 @@ func TestVF_C05(t *testing.T) {
 			idx++
 			if vfMine(idx) {
 				run(c05Case{Suite: suite, Dir: dir, Writes: long, Edit: c05Edit{Kind: "swap", Rec: 255}})
+			}
+		}
+	}
+	// more records than a 16-bit counter holds: a record replayed exactly 2^16 (and 2^16 +- 1) positions later
+	for si, suite := range []uint16{ECC_SM4_GCM_SM3, ECC_SM4_CBC_SM3} {
+		for dir := 0; dir < 2; dir++ {
+			for _, d := range []int{65536, 65535, 65537} {
+				idx++
+				if !vfMine(idx) {
+					continue
+				}
+				if !vfThorough() && (d != 65536 || (si+dir)%2 != 0) {
+					continue
+				}
+				run(c05Case{Suite: suite, Dir: dir, Many: 65545, Edit: c05Edit{Kind: "replay", Rec: 65540, Off: d}})
 			}
 		}
 	}
